@@ -741,6 +741,13 @@ fn scale_spaces(thorough: bool) -> Vec<Space> {
         e6[0] = T::Anon;
         e6[n - 1] = T::Anon;
         deep.push(cplx("k", e6));
+        // join(...) of n words against the atom it denotes (text of 2n-1 and more characters)
+        if n <= 129 {
+            let words: Vec<T> = (0..n).map(|i| atom(if i % 2 == 0 { "ab" } else { "c" })).collect();
+            let text: String = (0..n).map(|i| if i % 2 == 0 { "ab" } else { "c" }).collect::<Vec<_>>().join(" ");
+            deep.push(func("join", words));
+            deep.push(atom(&text));
+        }
         if n <= 40 {
             deep.push(func("add", els.clone()));
             deep.push(T::Int((1..=n as i64).sum()));
